@@ -337,12 +337,13 @@ PLAN = {
     ),
     "C12": dict(
         level="other",
-        functions=[CURR + "__add__", CURR + "__sub__", CURR + "__mul__", NET + "add_constraint", NET + "remove_constraint", NET + "update_constraint",
-                   NET + "register_evse", NET + "constraint_current", NET + "station_ids"],
+        functions=[CURR + "__add__", CURR + "__sub__", CURR + "__mul__", CURR + "__init__@list", NET + "add_constraint", NET + "remove_constraint",
+                   NET + "update_constraint", NET + "register_evse", NET + "constraint_current", NET + "station_ids"],
         bounded=[dict(module="rt.netmon", fn="constraint_monitor", label="add/remove/update/register sequences with algebra-built Currents against the row model")],
         text="PROVED (all Currents over arbitrary station subsets, all tables, all registration orders; by induction over calls, no bound): the Current "
              "algebra - a + b, a - b, c * a (and the reflected forms, which are the same methods) return a NEW Current whose coefficient at every station "
-             "is the pointwise sum / difference / multiple with absent stations read as 0; add_constraint appends exactly one row that holds, for every "
+             "is the pointwise sum / difference / multiple with absent stations read as 0; a Current built from a list of station ids has coefficient 1 for each "
+             "of them and mentions no other station; add_constraint appends exactly one row that holds, for every "
              "registered station in registration order, that station's coefficient in the Current (0 if absent) - whatever order the Current lists its "
              "stations in -, appends the limit and the name (the given name when it is free), leaves every existing row, limit and name untouched, raises "
              "KeyError exactly when the Current mentions an unregistered station and then changes nothing; the first constraint of a network (empty "
@@ -351,8 +352,8 @@ PLAN = {
              "removal followed by that addition (the updated constraint becomes the last row); register_evse appends the station to the registration "
              "order with its voltage and phase angle and raises EVSERegistrationError exactly when constraints exist; constraint_current returns the "
              "rows in network order and the requested periods in the order given (see C06). The alignment invariant (M names, M limits, M x N matrix) is "
-             "preserved by all of them. BOUNDED: aggregate currents for a SUBSET of constraint names (the order-preserving selection), duplicate-name "
-             "suffixing, Current construction from str / list, long mixed sequences.",
+             "preserved by all of them. (constraint_current for a SUBSET of constraint names: the order-preserving selection in network order, proved - see C06 / C18.) BOUNDED: duplicate-name "
+             "suffixing, Current construction from a str / dict / Series, long mixed sequences.",
         note="pandas per A-LIB (pyvc/pdlib.py): a Series is a finite mapping label -> number, Series.add(fill_value=0) is the union-sum, scalar multiple; a "
              "DataFrame is (row labels, column labels, cell and NaN functions of (row position, column label)) with DataFrame(matrix, columns, index), "
              "to_frame().T, frame[label] = scalar, concat of two frames (missing cells NaN), fillna, reindex(columns=), to_numpy (obligation: no NaN left), "
